@@ -43,6 +43,8 @@ pub fn lower(src: &str, name: &str) -> tir::Tx {
 mod scen;
 mod c14;
 mod c02;
+mod c20;
+mod c05;
 
 fn main() {
     let which = std::env::args().nth(1).unwrap_or_default();
